@@ -27,7 +27,7 @@ ASSUMPTIONS = [
     'collapse labels are strings (they become ids)',
 ]
 ANCHORS = ['Table.partition', 'Table.collapse', 'Table._conv_to_self_type']
-REQUIRED = ['partition_calls', 'partition_dict_id2grp', 'partition_dict_grp2ids',
+REQUIRED = ['collapse_f_forms', 'partition_calls', 'partition_dict_id2grp', 'partition_dict_grp2ids',
             'partition_ignore_none', 'partition_remove_empty',
             'partition_falsy_labels', 'collapse_one_to_one',
             'collapse_norm', 'collapse_min_group_size',
@@ -258,7 +258,19 @@ def run_collapse(ctx, r, spec, t, axis, desc):
     kept = [g for g in order if len(groups[g]) >= mgs]
     kw = {}
     if custom:
-        kw['collapse_f'] = lambda tt, ax: tt.sum(ax) * 4
+        # "dense or sparse vector": the same numbers in several forms
+        import scipy.sparse as sp_
+        form = r.choice(['ndarray', 'ndarray', 'csr-row', 'csc-row',
+                         'coo-row', 'ndarray-2d'])
+        desc['collapse_f_returns'] = form
+        conv = {'ndarray': lambda v: v,
+                'ndarray-2d': lambda v: v.reshape(1, -1),
+                'csr-row': lambda v: sp_.csr_matrix(v.reshape(1, -1)),
+                'csc-row': lambda v: sp_.csc_matrix(v.reshape(1, -1)),
+                'coo-row': lambda v: sp_.coo_matrix(v.reshape(1, -1))}[form]
+        kw['collapse_f'] = lambda tt, ax: conv(np.asarray(tt.sum(ax),
+                                                          dtype=float) * 4)
+        ctx.count('collapse_f_forms')
     if r.random() < .3:
         kw['strict'] = r.random() < .5      # irrelevant for labellers that
         desc['strict'] = kw['strict']       # always answer
@@ -300,7 +312,8 @@ def run_collapse(ctx, r, spec, t, axis, desc):
     if icm:
         for e in (exp.obs_md if axis == 'observation' else exp.samp_md):
             e['collapsed_ids'] = sorted(e['collapsed_ids'])
-    d = snap.diff(s, snap.snap_spec(exp))
+    # (a user function's sums may be added in another order than here)
+    d = snap.diff(s, snap.snap_spec(exp), rtol=1e-12 if custom else None)
     if d:
         raise Violation('C11/collapse-result', '%s; case=%r' %
                         ('; '.join(d), desc))
